@@ -4,6 +4,7 @@ import (
 	"bytes"
 	"errors"
 	"fmt"
+	"github.com/ipld/go-ipld-prime/linking/preload"
 	"math/rand"
 	"runtime"
 	"runtime/debug"
@@ -430,6 +431,60 @@ func CheckSelectorDmt(cs *SelDmtCase) *run.Finding {
 			return fail("traversal.WalkAdv", "NoPanic", "panic", fmt.Sprintf("graph #%d: %v", gi, p))
 		}
 		_ = werr
+		// the same walk under the non-default options of traversal.Config: a start path (every kind of node the walk
+		// visited may be named: the root, an inner map or list, a leaf), visit-once, budgets, a preloader
+		var paths []datamodel.Path
+		seen := map[string]bool{}
+		traversal.Progress{Cfg: &traversal.Config{LinkSystem: gr.LS, LinkTargetNodePrototypeChooser: func(datamodel.Link, linking.LinkContext) (datamodel.NodePrototype, error) {
+			return basicnode.Prototype.Any, nil
+		}}}.WalkAdv(gr.Root, sel, func(pr traversal.Progress, n datamodel.Node, _ traversal.VisitReason) error {
+			k := fmt.Sprint(n.Kind()) // one start path per kind of node
+			if !seen[k] || len(paths) < 3 {
+				seen[k] = true
+				paths = append(paths, pr.Path)
+			}
+			return nil
+		})
+		if len(paths) > 6 {
+			paths = paths[:6]
+		}
+		type variant struct {
+			name string
+			set  func(c *traversal.Config, pr *traversal.Progress)
+		}
+		variants := []variant{
+			{"LinkVisitOnlyOnce", func(c *traversal.Config, _ *traversal.Progress) { c.LinkVisitOnlyOnce = true }},
+			{"budgets 3 / 1", func(_ *traversal.Config, pr *traversal.Progress) {
+				pr.Budget = &traversal.Budget{NodeBudget: 3, LinkBudget: 1}
+			}},
+			{"a preloader", func(c *traversal.Config, _ *traversal.Progress) {
+				c.Preloader = func(preload.PreloadContext, preload.Link) {}
+			}},
+		}
+		for _, sp := range paths {
+			sp := sp
+			variants = append(variants, variant{fmt.Sprintf("StartAtPath %q", sp.String()), func(c *traversal.Config, _ *traversal.Progress) { c.StartAtPath = sp }})
+			variants = append(variants, variant{fmt.Sprintf("StartAtPath %q with a preloader", sp.String()), func(c *traversal.Config, _ *traversal.Progress) {
+				c.StartAtPath = sp
+				c.Preloader = func(preload.PreloadContext, preload.Link) {}
+			}})
+		}
+		for _, v := range variants {
+			cfg := &traversal.Config{LinkSystem: gr.LS, LinkTargetNodePrototypeChooser: func(datamodel.Link, linking.LinkContext) (datamodel.NodePrototype, error) {
+				return basicnode.Prototype.Any, nil
+			}}
+			prog := traversal.Progress{Cfg: cfg}
+			v.set(cfg, &prog)
+			p, timedOut := watchdog(15*time.Second, func() {
+				prog.WalkAdv(gr.Root, sel, func(traversal.Progress, datamodel.Node, traversal.VisitReason) error { return nil })
+			})
+			if timedOut {
+				return fail("traversal.WalkAdv["+v.name+"]", "Terminates", "timeout", fmt.Sprintf("graph #%d: no result after 15s", gi))
+			}
+			if p != nil {
+				return fail("traversal.WalkAdv["+v.name+"]", "NoPanic", "panic", fmt.Sprintf("graph #%d: %v", gi, p))
+			}
+		}
 	}
 	return nil
 }
